@@ -13,7 +13,7 @@ ACTIONS = ["Init", "Bump", "Shift", "Swap"]
 # read by bin/mkmanifest
 META = {
     "category": "model_checking",
-    "text": "TLC checks the four RFC 1982 laws (a+n > a for n in 1..2^(k-1)-1, antisymmetry, undefined exactly at distance 2^(k-1), shift invariance) and the equality of the transcribed partial_cmp/add with the RFC text for all pairs and all addends at 8 bits (9 and 11 bits thorough); every one of these k-bit evaluations is lifted to 32 bits by the exact embedding x*2^(32-k)+c (several offsets c, for ordered pairs also different offsets per side, which reaches the distances 2^31-1 and 2^31+1) and executed on Serial (partial_cmp, the five operators, add), Timestamp, SOA/RRSIG wire round trips, sign_rrset's validity-period check, the zone diff builder's serial-range check, the XFR middleware's IXFR decision (single SOA for a client with the same or a newer serial, transfer otherwise; XfrMiddlewareSvc::preprocess with a data provider that offers diffs) and new::base::Serial; the placement of a signature time next to a reference time (Timestamp::to_system_time) is specified as Place(ref, ts) with its order-embedding and shift laws checked by TLC for all reference times in three eras (6 bits quick, 7 thorough), and every case is lifted (independent offsets on reference and serial) and executed; recorded library runs on dense 32-bit operands (boundary distances 2^31+-2, neighbourhoods of 0 and 2^32-1, panicking addends, the zone store's SOA serial bump on commit) are validated by TLC through a 16-bit-limb model that TLC proves equal to the integer model at small widths.",
+    "text": "TLC checks the four RFC 1982 laws (a+n > a for n in 1..2^(k-1)-1, antisymmetry, undefined exactly at distance 2^(k-1), shift invariance) and the equality of the transcribed partial_cmp/add with the RFC text for all pairs and all addends at 8 bits (9 and 11 bits thorough); every one of these k-bit evaluations is lifted to 32 bits by the exact embedding x*2^(32-k)+c (several offsets c, for ordered pairs also different offsets per side, which reaches the distances 2^31-1 and 2^31+1) and executed on Serial (partial_cmp, the five operators, add), Timestamp, SOA/RRSIG wire round trips, sign_rrset's validity-period check, the zone diff builder's serial-range check, the XFR middleware's IXFR decision (single SOA for a client with the same or a newer serial, transfer otherwise; XfrMiddlewareSvc::preprocess with a data provider that offers diffs) and new::base::Serial; the placement of a signature time next to a reference time (Timestamp::to_system_time) is specified as Place(ref, ts) with its order-embedding and shift laws checked by TLC for all reference times in three eras (6 bits quick, 7 thorough), and every case is lifted (independent offsets on reference and serial) and executed; the text entry points of Timestamp (FromStr, Timestamp::scan through IterScanner, the zone-file reader's RRSIG fields; date form and integer form; Display and the zone-file formatter) are specified as 'text denotes a time t, the field holds t mod 2^k' and executed for every pair of times in three eras with real dates rendered by the harness (2106-02-07 and later included); recorded library runs on dense 32-bit operands (boundary distances 2^31+-2, neighbourhoods of 0 and 2^32-1, panicking addends, the zone store's SOA serial bump on commit) are validated by TLC through a 16-bit-limb model that TLC proves equal to the integer model at small widths.",
     "note": "Trusted: TLC, the transcription of RFC 1982 in Serial.tla, the uniformity in the limb base of SerialLimbs.tla (equivalence is TLC-checked at limb widths 4/5, used at 16), the harness. zonetree's Version type is private (not driven; derives its order from Serial). Sites that compare serials/timestamps but are not bound here: validator check_sig / ttl_for_sig (plain u32 order, real clock; reported to C14), server cookie timestamp_ok (real clock, cannot straddle the wrap), new::edns::Cookie::verify (Range<new Serial>::contains, delegates to the bound partial_cmp), new::rdata Timestamp including its copy of to_system_time (type not exported); net::client::stream and the XFR interpreter compare serials by equality only. Dense 2^64 coverage is sampled by traces; the full sweep of all 2^32 differences uses a Rust reference that the same TLC runs bind to the spec and is reported separately as an extension, as is the optional Apalache run for BITS=32.",
     "technique": "TLA+ spec (Serial.tla, SerialLimbs.tla) + TLC exhaustive; spec->impl replay through scaled embedding; impl->spec limb-encoded trace validation; reference sweep and Apalache as extensions",
     "design_ref": "DESIGN.md §4 C17",
@@ -68,7 +68,9 @@ def _trace_stats(path):
         else:
             k = o["ev"]
         c[k] = c.get(k, 0) + 1
-        if o["ev"] == "set":
+        if o["ev"] == "text":
+            c["text:era%d" % o["era"]] = c.get("text:era%d" % o["era"], 0) + 1
+        if o["ev"] == "set" or (o["ev"] == "text" and "ok" in o["got"]):
             cur = (o["v"][0] << 16) | o["v"][1]
         elif o["ev"] in ("add", "zonebump") and "ok" in o["serial"]:
             cur = (o["serial"]["ok"][0] << 16) | o["serial"]["ok"][1]
@@ -85,7 +87,7 @@ def _cur_before(trace_path, index):
     for i, o in enumerate(vlib.read_ndjson(trace_path), 1):
         if i >= index:
             break
-        if o["ev"] == "set":
+        if o["ev"] == "set" or (o["ev"] == "text" and "ok" in o["got"]):
             cur = _val(o["v"])
         elif o["ev"] in ("add", "zonebump") and "ok" in o["serial"]:
             cur = _val(o["serial"]["ok"])
@@ -121,6 +123,8 @@ def _reject_to_violation(ctx, trace_path, rej, what):
         call = "bump %d 0" % cur
     elif ev.get("ev") == "place":
         call = "place %d %d %d" % (cur, _val(ev["r"]), ev["era"])
+    elif ev.get("ev") == "text":
+        call = "text %d %d" % (ev["era"], _val(ev["v"]))
     else:
         raise vlib.ToolError("trace rejected at a %r event: %r" % (ev.get("ev"), rej))
     ok, rej2 = _confirm(ctx, [call], "confirm")
@@ -197,6 +201,11 @@ def run(ctx):
                  workers=8, label="mc-place", timeout=3000)
     ctx.require_ok(pl, "MC_SerialPlace")
     ctx.require_actions(pl, ["Init", "Tick", "Later"])
+    # signature times given as text: what the field holds, how fields compare
+    tx = ctx.tlc("MC_SerialText", "MC_SerialText_thorough" if thorough else "MC_SerialText",
+                 workers=8, label="mc-text", timeout=3000)
+    ctx.require_ok(tx, "MC_SerialText")
+    ctx.require_actions(tx, ["Init", "Tick1", "Tick2", "TickBoth"])
     # the limb model used for 32-bit operands equals the integer model
     lim = ctx.tlc("MC_SerialLimbs", "MC_SerialLimbs_thorough" if thorough else "MC_SerialLimbs",
                   workers=8, label="limbs-equiv", timeout=3000)
@@ -235,6 +244,17 @@ def run(ctx):
                                           stdin_path=head)
             ctx.selftest("perturbed expectation is reported by replay_serial", "FAIL " in out)
         ctx.replay_cases("replay_serial", cases, label="serial-" + tag)
+
+    # text entry points: every pair of times in 3 eras, as dates and integers
+    tcases = os.path.join(ctx.work, "cases-text.ndjson")
+    tg = ctx.tlc("MC_SerialText", "Gen_SerialText_thorough" if thorough else "Gen_SerialText",
+                 workers=8, label="gen-text", coverage=False, cases_to=tcases, count=False,
+                 timeout=3000)
+    ctx.require_ok(tg, "Gen_SerialText")
+    if tg.ncases < 5000:
+        raise vlib.ToolError("generator Gen_SerialText produced too few cases")
+    kinds_total["text_pairs"] = tg.ncases
+    ctx.replay_cases("replay_serial", tcases, label="serial-text")
 
     # placement cases: every (reference time in 3 eras, serial) pair
     pcases = os.path.join(ctx.work, "cases-place.ndjson")
@@ -300,7 +320,8 @@ def run(ctx):
                 ctx.selftest("corrupted %s result is rejected by Trace_Serial" % kind, not ok2)
     need = ["set", "cmp:LT", "cmp:EQ", "cmp:GT", "cmp:UNDEF", "add:ok", "add:panic",
             "zonebump:ok", "place:era0:same", "place:era0:up", "place:era0:down",
-            "place:era1:up", "place:era1:down", "place:era2:up", "place:half"]
+            "place:era1:up", "place:era1:down", "place:era2:up", "place:half",
+            "text:era0", "text:era1", "text:era2"]
     tstats["place:half"] = sum(v for k, v in tstats.items()
                                if k.startswith("place:") and k.endswith(":half"))
     missing = [k for k in need if tstats.get(k, 0) == 0]
@@ -360,6 +381,9 @@ def run(ctx):
                "(record ordering, not zone-version ordering) and are not part of this property")
     ctx.assume("to_system_time: at distance exactly 2^31 from the reference and where the "
                "placement would lie before the epoch only 'result = ts (mod 2^32)' is required")
+    ctx.assume("text forms: dates before 1970 and integer tokens above 2^32-1 are outside the "
+               "property and not generated; dates are rendered by the harness's own "
+               "days-to-civil routine (proleptic Gregorian, UTC, no leap seconds)")
     ctx.assume("zonetree Version (private type, derives PartialOrd from Serial) is not driven "
                "directly; Versioned::get's `item.0 <= version` would need 2^31 commits to wrap")
     ctx.assume("IXFR decision: RFC 1995 section 2 (same or newer client serial -> single SOA); "
